@@ -24,7 +24,7 @@ TRUSTED = [
     'Lean 4.33.0 kernel (theorems of FCA/Props and FCA/Proofs; axioms limited to propext, Classical.choice, Quot.sound; audited by #print axioms on this run)',
     'Mathlib v4.33.0 modules imported by FCA/Proofs (definitions and lemmas, kernel-checked)',
     'Lean compiler and runtime for the executable driver (the compiled code of the model definitions)',
-    'harness/ (generators, canonicalisation, comparison) and harness/extract.py (source-to-Lean translation of expression kernels and tables)',
+    'harness/ (generators, canonicalisation, comparison) and harness/extract.py (source-to-Lean translation of expression kernels, tables, and the loop bodies of matrices.py, lindig.neighbors and the two FCbO generators; ~x read as in-domain complement)',
     'dependency contracts not modelled: bitsets (frommembers/members/bools/shortlex/longlex/powerset/atomic), CPython heapq/sorted/set/dict/int, csv, json, pickle, io, graphviz',
 ]
 
@@ -52,16 +52,21 @@ def build(pid, log):
             log(r.stdout[-3000:])
             raise RuntimeError('driver build failed')
         mods = ['FCA.Props.' + pid]
+        # further theorem files about the hand-written model: FCA/Props/<pid><Suffix>.lean (all but <pid>Gen.lean)
+        more = sorted(f for f in glob.glob(os.path.join(LEAN, 'FCA', 'Props', pid + '[A-Z]*.lean'))
+                      if not f.endswith(pid + 'Gen.lean'))
+        mods += ['FCA.Props.' + os.path.basename(f)[:-5] for f in more]
         gen = os.path.join(LEAN, 'FCA', 'Props', pid + 'Gen.lean')
         have_gen = os.path.exists(gen)
         gen_source = {'C08': 'Predicates', 'C16': 'Junctors', 'C12': 'Formats', 'C01': 'Loops',
-                      'C03': 'Lindig', 'C05': 'Lindig', 'C04': 'Fcbo'}.get(pid)
+                      'C03': 'Lindig', 'C05': 'Lindig', 'C04': 'Fcbo', 'C19': 'Validate'}.get(pid)
         declined = bool(gen_source) and str(info['extraction'].get(gen_source, '')).startswith('declined')
         if declined:
             info['notes'].append('extraction declined (%s): the theorems over the regenerated kernels are not checked against the '
                                  'current source on this run' % info['extraction'][gen_source])
         src_files = [os.path.join(LEAN, 'FCA', 'Props', pid + '.lean')]
         have_props = os.path.exists(src_files[0])
+        src_files += more
         if have_props:
             r = sh(['lake', 'build'] + mods, cwd=LEAN)
         pinned_ok = (r.returncode == 0) if have_props else True
@@ -102,10 +107,10 @@ def build(pid, log):
         audit = os.path.join(WORK, 'Audit_%s_%d.lean' % (pid, os.getpid()))
         imports = []
         if pinned_ok and have_props:
-            imports.append('import FCA.Props.' + pid)
+            imports += ['import ' + m for m in mods]
         if have_gen and gen_ok:
             imports.append('import FCA.Props.%sGen' % pid)
-        ok_names = [n for n, f in names if (f == pid + '.lean' and pinned_ok) or (f == pid + 'Gen.lean' and gen_ok)]
+        ok_names = [n for n, f in names if (f != pid + 'Gen.lean' and pinned_ok) or (f == pid + 'Gen.lean' and gen_ok)]
         info['failed'] = [n for n, f in names if n not in ok_names]
         if imports and ok_names:
             with open(audit, 'w') as f:
@@ -237,10 +242,15 @@ def main():
         path = core.write_replay(pid, rec)
         print('VIOLATION property=%s replay=%s no-failing-input-found' % (pid, path))
         status = 1
-    elif info['failed'] and not info.get('pinned_ok', True):
-        # the theorems about the model itself do not check: nothing shows the property
-        rec = {'property': pid, 'what': 'theorems no longer check', 'failed_theorems': info['failed'],
-               'requests': [], 'tree': tree_hash(), 'notes': info['notes']}
+    elif info['failed']:
+        # a proof obligation no longer checks (theorems about the model, or the theorems over the kernels regenerated from
+        # the current source, or the translator declined the source) and the widened search found no failing input:
+        # the property is no longer shown to hold for this source
+        what = ('theorems about the model no longer check' if not info.get('pinned_ok', True)
+                else 'the extraction tie no longer checks (theorems over the code regenerated from the current source)')
+        rec = {'property': pid, 'what': what, 'failed_theorems': info['failed'],
+               'requests': [], 'tree': tree_hash(), 'notes': info['notes'], 'extraction': info.get('extraction'),
+               'searched': {'evaluations': run.evaluations, 'distinct_nontrivial': len(run.distinct), 'tier': run.tier}}
         path = core.write_replay(pid, rec)
         print('VIOLATION property=%s replay=%s no-failing-input-found' % (pid, path))
         status = 1
@@ -250,7 +260,7 @@ def main():
     if status == 0:
         print('PASS property=%s tier=%s evaluations=%d distinct_nontrivial=%d theorems=%d/%d wall=%.1fs%s' % (
             pid, args.tier, run.evaluations, len(run.distinct), info['discharged'], info['obligations'],
-            time.time() - t0, ' tie=correspondence-only' if info['failed'] else ''))
+            time.time() - t0, ''))
     return status
 
 
@@ -339,7 +349,9 @@ def tree_hash():
 
 
 def write_evidence(pid, tier, seed, run, info, wall, status):
-    os.makedirs(os.path.join(VERIF, 'evidence'), exist_ok=True)
+    # evidence/ describes runs against /repo only; runs against another tree ($VERIF_REPO, development) go elsewhere
+    evdir = 'evidence' if os.path.realpath(os.environ.get('VERIF_REPO', '/repo')) == '/repo' else os.path.join('.work', 'evidence-other-tree')
+    os.makedirs(os.path.join(VERIF, evdir), exist_ok=True)
     cov = {
         'obligations': max(info['obligations'], 1) if info['obligations'] else 0,
         'discharged': info['discharged'],
@@ -366,7 +378,7 @@ def write_evidence(pid, tier, seed, run, info, wall, status):
     proved = info['obligations'] > 0 and info['discharged'] == info['obligations']
     ev = {'property_id': pid, 'tier': tier, 'seed': seed, 'level': 'proof' if proved else 'exploration', 'coverage': cov,
           'assumptions': TRUSTED, 'wall_s': round(wall, 2), 'violations': 1 if status == 1 else 0}
-    with open(os.path.join(VERIF, 'evidence', pid + '.json'), 'w') as f:
+    with open(os.path.join(VERIF, evdir, pid + '.json'), 'w') as f:
         json.dump(ev, f, indent=1, sort_keys=True, default=str)
         f.write('\n')
 
